@@ -175,9 +175,8 @@ def op1(value: str, priority=0):
 
 def op2(value: str, priority=0):
     "Binary operator factory"
-    if value == Operator.Multiply:
-        priority += 1
-    elif value == Operator.Divide or value == Operator.IntDivide:
+    # NB: `*`, `/` and `\` have the same priority: `a*b/c` is `(a*b)/c`
+    if value in (Operator.Multiply, Operator.Divide, Operator.IntDivide):
         priority += 2
 
     return Token(TokenType.Op2, value, priority)
